@@ -10,19 +10,23 @@ for line in k['fixed']:
     prop, commit, what = m.groups()
     if only and commit not in only and prop not in only:
         continue
-    if subprocess.run(['git', '-C', '/repo', 'diff', '--quiet']).returncode != 0:
-        print('repo dirty'); sys.exit(2)
+    import shutil, tempfile
+    tmp = tempfile.mkdtemp(prefix='regress-')
+    copy = os.path.join(tmp, 'repo')
+    shutil.copytree('/repo', copy, ignore=shutil.ignore_patterns('.git', '__pycache__'))
     patch = subprocess.run(['git', '-C', '/repo', 'diff', commit, commit + '~1'], stdout=subprocess.PIPE).stdout
-    p = subprocess.run(['git', '-C', '/repo', 'apply', '-'], input=patch, stderr=subprocess.PIPE)
+    p = subprocess.run(['patch', '-p1', '-s'], cwd=copy, input=patch, stdout=subprocess.PIPE, stderr=subprocess.STDOUT)
     if p.returncode != 0:
         print(f'{commit} {prop}: reverse patch does not apply (later commits touch the same lines)')
+        shutil.rmtree(tmp, ignore_errors=True)
         continue
     try:
-        env = dict(os.environ, SIMQB_EVIDENCE_DIR='/tmp/regress-ev', SIMQB_REPLAY_DIR='/tmp/regress-rp')
+        env = dict(os.environ, SIMQB_EVIDENCE_DIR=os.path.join(tmp, 'ev'), SIMQB_REPLAY_DIR=os.path.join(tmp, 'rp'),
+                   SIMQB_REPO=copy)
         q = subprocess.run(['/venv/bin/python', '-m', 'simqb', 'check', prop, '--tier', 'quick'], cwd='/verif',
                            env=env, stdout=subprocess.PIPE, stderr=subprocess.STDOUT, timeout=3000)
         out = q.stdout.decode()
         classes = sorted(set(re.findall(r'class=(\S+)', out)))
         print(f'{commit} {prop}: exit={q.returncode} {"CAUGHT" if q.returncode == 1 else "MISSED"} {classes[:4]} :: {what[:70]}', flush=True)
     finally:
-        subprocess.run(['git', '-C', '/repo', 'checkout', '--', '.'])
+        shutil.rmtree(tmp, ignore_errors=True)
